@@ -563,6 +563,12 @@ def sized_histories(rng, tier):
             if per_call * calls > limit:
                 h[-1]["essential"] = True
             hists.append(h)
+    # programs that END NORMALLY after consuming / printing a lot (nothing to report, everything to restore)
+    for n in ([LARGE["inputs"]] if quick else [v for v in lim["values"] if v >= 29] + [LARGE["inputs"]]):
+        k += 1
+        hists.append([{"entry": "run", "style": sx.STYLES[k % 3], "inject": False, "term": ["N"], "shape": "normal",
+                       "code": "for k in range(%d):\n    print(input('q'), k)\n" % n,
+                       "inputs": [str(i) for i in range(n // 2)], "size": {"dim": "inputs", "n": n, "kind": "normal"}}])
     # what the rendering is handed
     for sn in rendering_snippets():
         ess = sn.get("essential")
